@@ -36,7 +36,7 @@ CLAIMED = {
 CLAIMED.update({
     "C14": ("Theorems in Props/C14.v over Spec/UpdateSem.v: every contribution applied exactly once (accumulating duplicates), untouched "
             "elsewhere, set_at leaves a competing value, get_at reads back what a collision-free set_at wrote, and the source's multiplier loop (regenerated into Gen/GenRavel.v) yields the "
-            "row-major index; einx results on generated *_at/get_at calls with colliding coordinates are compared with the extracted spec",
+            "row-major index, is a bijection between in-bounds coordinate vectors and target elements and addresses the element of the matching slice; the regenerated _join_exprs loop terminates and yields every axis exactly once; einx results on generated *_at/get_at calls with colliding coordinates are compared with the extracted spec",
             "Coq proof on the update semantics + regenerated kernel lemma + value correspondence", "DESIGN.md 3/C14"),
     "C09": ("Finite-table theorems (Props/C09.v, vm_compute over tables regenerated from the source): mutating numpy primitives are wrapped "
             "in-place and reachable from the update_at family only; dynamic snapshot comparison of all arguments over 4 memory layouts, "
